@@ -47,6 +47,7 @@ structure DegEnv where
   ranges : List (VName × Range)
   types : List (VName × VType)
   assigned : List VName            -- variables assigned to by some statement seen so far
+  condJoin : Bool := false         -- the paths meeting at the head of the current block are chosen by a condition not known to be constant
 
 def DegEnv.degree (env : DegEnv) (v : VName) : Option Range := (env.ranges.find? (·.1 == v)).map (·.2)
 def DegEnv.isAssigned (env : DegEnv) (v : VName) : Bool := env.assigned.contains v
@@ -142,8 +143,12 @@ def degExpr (env : DegEnv) : Expr → Expr × Bool
     let (a', c) := orSetDeg a c2 rng
     (.upd a' v access' rhe', c)
   | .phi a args =>
-    let (a', c) := orSetDeg a false (iterOpt (args.map env.degree))
-    (.phi a' args, c)
+    -- which argument is taken is decided by the conditions on the paths to the block: no degree unless they are constant (repair of
+    -- `F-C07-control-dependence`; cf. the switch expression)
+    if env.condJoin then (.phi a args, false)
+    else
+      let (a', c) := orSetDeg a false (iterOpt (args.map env.degree))
+      (.phi a' args, c)
 /-- `for arg in args { result = result || arg.propagate_degrees(env) }` -/
 def degExprs (env : DegEnv) : Exprs → Bool → Exprs × Bool
   | .nil, c => (.nil, c)
@@ -204,7 +209,20 @@ def degStmt (env : DegEnv) : Stmt → Stmt × DegEnv × Bool
     let (r', c2) := if c1 then (r, true) else degExpr env r
     (.ceq l' r', env, c2)
 
-/-- one pass of `for basic_block in self.iter_mut() { rerun = rerun || basic_block.propagate_degrees(&mut env) }` -/
+/-- the condition of the if statement at the end of block `h` has a degree, and it is constant -/
+def condConst (blocks : List Block) (h : Nat) : Bool :=
+  match (blocks.getD h { stmts := [] }).stmts.getLast? with
+  | some (.ite cond) => (match cond.ann.deg with | some r => r.2 == 0 | none => false)
+  | _ => false
+
+/-- `env.set_conditional_join(..)` before a block is visited: some condition that chooses between the incoming paths is not
+    (known to be) constant -/
+def setJoin (blocks : List Block) (env : DegEnv) (b : Block) : DegEnv :=
+  { env with condJoin := b.conds.any (fun h => !condConst blocks h) }
+
+/-- one pass of `for index in .. { if rerun { break } env.set_conditional_join(..); rerun = self.basic_blocks[index].propagate_degrees(&mut env) }`;
+    the conditions are read from the blocks as they are at the start of the pass: a pass stops at the first block it changes, so the
+    blocks before the current one are unchanged when it is visited -/
 def degPass (env : DegEnv) (blocks : List Block) : List Block × DegEnv × Bool :=
   let step (acc : List Stmt × DegEnv × Bool) (s : Stmt) : List Stmt × DegEnv × Bool :=
     let (done, env, c) := acc
@@ -214,7 +232,7 @@ def degPass (env : DegEnv) (blocks : List Block) : List Block × DegEnv × Bool 
     let (bs, env, c) := acc
     if c then (bs ++ [b], env, true)
     else
-      let (ss, env', c') := b.stmts.foldl step ([], env, false)
+      let (ss, env', c') := b.stmts.foldl step ([], setJoin blocks env b, false)
       (bs ++ [{ b with stmts := ss }], env', c')) ([], env, false)
 
 /-- the environment `propagate_degrees` starts from -/
